@@ -1,4 +1,5 @@
 """C15 -- wildcards and file names select exactly the files DFS semantics say."""
+import functools
 import re
 
 from hypothesis import strategies as st
@@ -38,8 +39,10 @@ def ch_eq(p, c):
     return p == c
 
 
+@functools.lru_cache(maxsize=100000)
 def wild_match(pat, text):
-    """'#' one character, '*' any run (neither matches '.'), letters fold case, others literal."""
+    """(memoised: a pattern with many '*' would otherwise cost 8^stars steps)
+    '#' one character, '*' any run (neither matches '.'), letters fold case, others literal."""
     if not pat:
         return not text
     p = pat[0]
